@@ -171,7 +171,15 @@ def gen(tier, rng):
                 req += ' rargs=' + ';'.join(G.fmt(x) for x in rargs)
             oracle = 'T shape=%s h=%d' % (G.fmt(T), G.data_hash(r))
             tags = ['depth=%d' % p.depth, 'root=' + p.root.name] + ['leaf=' + l.kind for l in p.leaves] + (['modelled'] if p.modelled() else ['unmodelled'])
-            yield Case(req, home[p.id], dom=True, oracle=oracle, model=False, nontrivial=(T != nominal or p.depth >= 2), tags=tags, cmp=cmp)
+            modelled = p.modelled()
+            mreq = 'c11 rpn=%s shapes=%s' % (p.rpn(), ';'.join(G.fmt(s) for s in shapes))
+            if rargs:
+                mreq += ' rargs=' + ';'.join(G.fmt(x) for x in rargs)
+            c = Case(req, home[p.id], dom=True, oracle=oracle, model=modelled, mreq=mreq, nontrivial=(T != nominal or p.depth >= 2), tags=tags, cmp=cmp)
+            # inside a known-unsound class the Lean transfer merely mirrors the code: the oracle alone judges
+            if any(f(c) for f in KNOWN_PREDICATES.values()):
+                c.dom = False
+            yield c
 
 
 def post(cases, tier):
@@ -246,7 +254,8 @@ def subtrees(n):
 
 
 def has_clipped_leaf(n):
-    return any(l[1] in CLIPPED for l in leaves_of(n))
+    """the subtree's shape knowledge can be of clipped kind: a clipped-shape leaf or a clipped (`cl.`) shape argument below"""
+    return any(l[1] in CLIPPED for l in leaves_of(n)) or any(m[0] != 'leaf' and m[2].startswith('cl.') for m in subtrees(n))
 
 
 def squeeze_over_clipped(case):
